@@ -14,9 +14,14 @@
    Fuel: find runs the code's for{} loop with fuel 1 + |rules|.  C15_find_complete proves
    that this fuel suffices whenever a chain exists; by C15_find_sound no later iteration
    could return anything but a valid chain, so for unreachable targets "fuel exhausted"
-   and the loop's own exit give the same answer (nil). *)
+   and the loop's own exit give the same answer (nil).
+
+   Last section: conversion bindings that carry the further documented binding parameters (`group`,
+   `includeSnapshotsFrom`) in any position of a chain - the model (C15_BindModel) follows a step from
+   the hook's configuration to the binding context its hook reads (MapV1), the Spec (C15_BindSpec)
+   demands that every executed hook read the conversion request of its step. *)
 From Coq Require Import String.
-From Verif Require Import Common C15_Model C15_Spec C15_Proofs.
+From Verif Require Import Common C15_Model C15_Spec C15_Proofs C15_BindModel C15_BindSpec C15_BindProofs.
 
 (* ---- the search ---- *)
 
@@ -290,4 +295,116 @@ Example C15_session_example :
                                   (str "v3") (None,5)%N ex_lrules (snd (fst (ex_lq 100))) [(1, (None,0))]%N in
       t = [] /\ a = RFailure (str "hook task prop error")
       /\ P_handler (None,5)%N ex_lrules (snd (fst (ex_lq 100))) [(1, (None,0))]%N t a = false).
+Proof. repeat split; vm_compute; reflexivity. Qed.
+
+(* ---- conversion bindings with further binding parameters: `group`, `includeSnapshotsFrom`; hooks that have
+        `kubernetes` / `schedule` bindings beside them (C15_BindModel: configuration loading, links,
+        HandleEvent, UpdateSnapshots, MapV1 statement by statement; C15_BindSpec.P_params) ----
+
+   What the hook of a step READS ($BINDING_CONTEXT_PATH) is part of the observation: a delivery is
+   (hook number, rendered binding context). *)
+
+(* MapV1: a conversion context is rendered as the conversion review - type "Conversion", the
+   rule's fromVersion / toVersion, the review - whatever group it carries, whatever snapshots it
+   includes or holds; it never has a groupName *)
+Theorem C15_conversion_context_is_review : forall bc, bc_btype bc = BConversion ->
+  r_type (map_v1 bc) = RtConversion /\ r_versions (map_v1 bc) = Some (bc_versions bc)
+  /\ r_review (map_v1 bc) = bc_review bc /\ r_group (map_v1 bc) = None /\ r_binding (map_v1 bc) = bc_binding bc.
+Proof. exact conversion_context_is_review. Qed.
+Print Assumptions C15_conversion_context_is_review.
+
+(* the statement that follows in MapV1 is not idle: the same group on a schedule / kubernetes context
+   gives "type": "Group" and no review - so the theorem above depends on the ORDER of the statements *)
+Theorem C15_grouped_context_is_group : forall bc g, bc_group bc = Some g ->
+  bc_btype bc = BSchedule \/ bc_btype bc = BOnKubernetesEvent ->
+  r_type (map_v1 bc) = RtGroup /\ r_group (map_v1 bc) = Some g /\ r_review (map_v1 bc) = None.
+Proof. exact grouped_context_is_group. Qed.
+Print Assumptions C15_grouped_context_is_group.
+
+(* for every configuration of hooks, every link (binding with any parameters) and every object list:
+   the hook reads the conversion request of the link's rule carrying exactly these objects *)
+Theorem C15_step_hook_receives_request : forall hooks l objs,
+  conversion_request (hook_receives hooks l objs) = Some (l_rule l, objs).
+Proof. exact step_hook_receives_request. Qed.
+Print Assumptions C15_step_hook_receives_request.
+
+(* BINDING_CONVERSION.md "snapshots as defined by includeSnapshotsFrom or group": the field is there
+   exactly when the binding includes something, a group brings in its kubernetes bindings, the
+   names listed are kept *)
+Theorem C15_snapshots_field_iff : forall hooks l objs,
+  r_snapshots (hook_receives hooks l objs) = None <-> l_include l = [].
+Proof. exact snapshots_field_iff. Qed.
+Print Assumptions C15_snapshots_field_iff.
+
+Theorem C15_group_includes_its_snapshots : forall cfg cb g k,
+  cb_group cb = Some g -> In (k, Some g) (h_kube cfg) -> In k (loaded_include cfg cb).
+Proof. exact group_includes_its_snapshots. Qed.
+Print Assumptions C15_group_includes_its_snapshots.
+
+Theorem C15_include_kept : forall cfg cb k, In k (cb_include cb) -> In k (loaded_include cfg cb).
+Proof. exact include_kept. Qed.
+Print Assumptions C15_include_kept.
+
+(* the chain, for ALL hook configurations (any group / includeSnapshotsFrom on any binding, in any
+   position of the chain; any other bindings; any assignment of rules to hooks and bindings), all
+   chains of declared rules, all outcome scripts, all requests: every executed hook read the
+   conversion request of its step - [requests] turns the deliveries into the (rule, objects) trace -,
+   each was a hook that declared the step's rule, and runs and answer are those of [serve], about
+   which the theorems above speak *)
+Theorem C15_params_is_serve : forall crd hooks dtext desired chain outs req,
+  forallb (declared (hooks_rules hooks)) chain = true ->
+  exists t', serve_params crd hooks dtext desired chain outs req = (t', snd (serve dtext desired chain outs req))
+             /\ requests t' = Some (fst (serve dtext desired chain outs req))
+             /\ forallb (run_by_declarer hooks) t' = true.
+Proof. exact params_is_serve. Qed.
+Print Assumptions C15_params_is_serve.
+
+Theorem C15_params_meets_spec : forall crd hooks dtext desired chain outs req t r,
+  forallb (declared (hooks_rules hooks)) chain = true ->
+  serve_params crd hooks dtext desired chain outs req = (t, r) ->
+  P_params hooks desired chain outs req t r = true.
+Proof. exact params_meets_spec. Qed.
+Print Assumptions C15_params_meets_spec.
+
+(* binding parameters, other bindings, which hook owns which rule: no influence on what the hooks are
+   asked to convert nor on the answer *)
+Theorem C15_params_irrelevant : forall crd crd' hooks hooks' dtext desired chain outs req,
+  forallb (declared (hooks_rules hooks)) chain = true -> forallb (declared (hooks_rules hooks')) chain = true ->
+  requests (fst (serve_params crd hooks dtext desired chain outs req))
+  = requests (fst (serve_params crd' hooks' dtext desired chain outs req))
+  /\ snd (serve_params crd hooks dtext desired chain outs req) = snd (serve_params crd' hooks' dtext desired chain outs req).
+Proof. exact params_irrelevant. Qed.
+Print Assumptions C15_params_irrelevant.
+
+(* a rule no hook has a link for (never a declared rule): the handler's own error, nothing is run *)
+Theorem C15_no_link_fails : forall crd hooks dtext desired r rest outs req,
+  extract req <> [] -> link_for (all_links hooks) r = None ->
+  serve_params crd hooks dtext desired (r :: rest) outs req = ([], RFailure (no_hook_text crd)).
+Proof. exact no_link_fails. Qed.
+Print Assumptions C15_no_link_fails.
+
+(* non-vacuity: two hooks, stable.example.com/v1 -> v2 (hook 0, binding 0) and stable.example.com/v2 ->
+   stable.example.com/v3 (hook 1, binding 100, `group: 1`, `includeSnapshotsFrom: [1]`; hook 1 has the
+   kubernetes bindings 0 (group 1) and 1 (no group) and a schedule binding of group 1): the chain is made of
+   declared rules, the second hook reads type Conversion with the FIRST hook's output and the snapshots
+   of bindings 1 and 0, the answer is Success.  And the Spec is not idle: had the second hook read a
+   "Group" context instead, P_params would reject the observation. *)
+Definition ex_hooks : list hookcfg :=
+  [ mkHook [] [] [mkCB 0 None [] [((Some 1, 0), (None, 3))]];
+    mkHook [(0, Some 1); (1, None)] [(0, Some 1)] [mkCB 100 (Some 1) [1] [((Some 1, 3), (Some 1, 5))]] ]%N.
+Definition ex_pchain : list rule := [((Some 1, 0), (None, 3)); ((Some 1, 3), (Some 1, 5))]%N.
+Definition ex_pouts : list outcome := [OResp [] [(100, (None, 3))]; OResp [] [(200, (Some 1, 5))]]%N.
+
+Example C15_params_example :
+  forallb (declared (hooks_rules ex_hooks)) ex_pchain = true
+  /\ serve_params (str "crontabs.stable.example.com") ex_hooks (str "stable.example.com/v3") (Some 1, 5)%N
+                  ex_pchain ex_pouts [(1, (Some 1, 0))]%N
+     = ([ (0, mkR 0 RtConversion None None (Some ((Some 1, 0), (None, 3))) (Some [(1, (Some 1, 0))]));
+          (1, mkR 100 RtConversion (Some [1; 0]) None (Some ((Some 1, 3), (Some 1, 5))) (Some [(100, (None, 3))])) ]%N,
+        RSuccess [(200, (Some 1, 5))]%N)
+  /\ P_params ex_hooks (Some 1, 5)%N ex_pchain ex_pouts [(1, (Some 1, 0))]%N
+              [ (0, mkR 0 RtConversion None None (Some ((Some 1, 0), (None, 3))) (Some [(1, (Some 1, 0))]));
+                (1, mkR 100 RtGroup (Some [1; 0]) (Some 1) None None) ]%N
+              (RSuccess [(200, (Some 1, 5))]%N) = false
+  /\ link_for (all_links ex_hooks) ((None, 3), (None, 5))%N = None.
 Proof. repeat split; vm_compute; reflexivity. Qed.
